@@ -42,7 +42,9 @@ class MetricActionContext(ActionContext):
             labels, value = self._process_metric(metric)
             for processor in self.trigger_context.config.metric_processors:
                 try:
-                    getattr(processor, self._convert_type(metric.type))(metric.name, labels, metric.namespace or "deep",
+                    # (each processor gets its own copy of the labels: they may keep it, or add to it)
+                    getattr(processor, self._convert_type(metric.type))(metric.name, dict(labels),
+                                                                        metric.namespace or "deep",
                                                                         metric.help, metric.unit, value)
                 except BaseException:
                     # one metric processor failing must not stop the other processors, or the other metrics
